@@ -1,0 +1,599 @@
+//go:build verif
+
+package db
+
+// Contracts for property C16 (revision cache: serves what it stored, accounts for itself). Comment-only; read by /verif/engine.
+//
+// Reading of the code: SEQUENTIAL. Every function is verified as if nothing else ran between its first and its
+// last instruction (rc.lock and value.lock are treated as held / uncontended). The schedule clauses of C16
+// (single-flight load, CAS races between Get/Remove/eviction) are NOT decided here.
+
+//@ props C16
+
+// ======================= TRUSTED: sync/atomic typed values, sequential semantics =======================
+// Under the sequential reading an atomic is a memory cell: Load returns the stored value, Store/Swap/Add/
+// CompareAndSwap do what their documentation says (Go memory model: atomics are sequentially consistent).
+// The value field `v` of atomic.Int64/Int32 is unexported and cannot be selected in a contract; the two spec
+// functions below stand for the projection "the v field of this struct value" (`_ noCopy` / `_ align64` carry
+// no data). Their only axioms are the definitional ones in /verif/trusted/c16_atomic.spec (projection of a literal).
+// (The extern blocks are in this file and not in /verif/trusted because the type names of a spec function are
+// resolved in the package of the block that uses it, and sync/atomic is not a repo package.)
+//@ fn c16i64(a atomic.Int64) int64
+//@ fn c16i32(a atomic.Int32) int32
+
+//@ extern func sync/atomic.Int64.Load
+//@   inert
+//@   ensures result == c16i64(*x)
+
+//@ extern func sync/atomic.Int64.Store
+//@   modifies *x
+//@   ensures c16i64(*x) == val
+
+// Add wraps on overflow like every Go integer addition; stated with the verifier's signed `+` (assumed not to
+// overflow, see CONTRACTS.md): byte counts are far below 2^63.
+//@ extern func sync/atomic.Int64.Add
+//@   modifies *x
+//@   ensures c16i64(*x) == old(c16i64(*x)) + delta && result == c16i64(*x)
+
+//@ extern func sync/atomic.Int32.Store
+//@   modifies *x
+//@   ensures c16i32(*x) == val
+
+// arg1 = parameter `new` (a keyword of the contract language)
+//@ extern func sync/atomic.Int32.Swap
+//@   modifies *x
+//@   ensures c16i32(*x) == arg1 && result == old(c16i32(*x))
+
+// arg1 = parameter `old`, arg2 = parameter `new`
+//@ extern func sync/atomic.Int32.CompareAndSwap
+//@   modifies *x
+//@   ensures result <==> old(c16i32(*x)) == arg1
+//@   ensures c16i32(*x) == ite(old(c16i32(*x)) == arg1, arg2, old(c16i32(*x)))
+
+// ======================= TRUSTED: container/list, abstract set view =======================
+// The LRU list of a cache is seen through two ghost fields of the OWNING cache: the set of its elements and its
+// length. c16owner(l) names the cache whose lruList is l (c16wf(rc) says c16owner(rc.lruList) == rc; a list is
+// created by NewLRURevisionCache for exactly one cache and never shared).
+// Read from container/list/list.go (go1.26): PushFront allocates a new Element holding v and links it (len+1);
+// Remove(e) unlinks e iff e.list == l (len-1), never touches e.Value and returns it; MoveToFront relinks e,
+// membership and length unchanged; Back returns nil iff len == 0, else the last element (a member);
+// Len returns len (never negative; in particular >= 1 before a Remove of a member).
+// The ORDER of the list is not modelled: nothing in C16 depends on which element is the tail.
+//@ fn c16owner(l *list.List) *LRURevisionCache
+//@ ghost field LRURevisionCache.lruSet set[*list.Element]
+//@ ghost field LRURevisionCache.lruLen int
+
+//@ extern func container/list.List.Len
+//@   inert
+//@   ensures result == c16owner(l).lruLen
+
+//@ extern func container/list.List.Back
+//@   inert
+//@   ensures (result == nil) <==> c16owner(l).lruLen == 0
+//@   ensures result != nil ==> (result in c16owner(l).lruSet)
+
+//@ extern func container/list.List.MoveToFront
+//@   inert
+
+//@ extern func container/list.List.PushFront
+//@   modifies c16owner(l).lruSet, c16owner(l).lruLen
+//@   ensures result != nil && !old(allocated(now(result))) && !(result in old(c16owner(l).lruSet)) && result.Value == v
+//@   ensures c16owner(l).lruSet == union(old(c16owner(l).lruSet), single(result)) && c16owner(l).lruLen == old(c16owner(l).lruLen) + 1
+
+//@ extern func container/list.List.Remove
+//@   modifies c16owner(l).lruSet, c16owner(l).lruLen
+//@   ensures result == e.Value
+//@   ensures old(e in c16owner(l).lruSet) ==> c16owner(l).lruSet == minus(old(c16owner(l).lruSet), single(e)) && c16owner(l).lruLen == old(c16owner(l).lruLen) - 1
+//@   ensures !old(e in c16owner(l).lruSet) ==> c16owner(l).lruSet == old(c16owner(l).lruSet) && c16owner(l).lruLen == old(c16owner(l).lruLen)
+//@   ensures c16owner(l).lruLen >= 0          // a length: a list that had a member had length >= 1
+
+// ======================= vocabulary =======================
+
+// contents of the two atomics of a cache value
+//@ pred ibytes(v *revCacheValue) int64
+//@   is c16i64(v.itemBytes)
+//@ pred mstate(v *revCacheValue) int32
+//@   is c16i32(v.memState)
+// the amount value v currently contributes to the byte gauge ("accounted(v)" of the design)
+//@ pred acct(v *revCacheValue) int64
+//@   is ite(mstate(v) == memStateSized, ibytes(v), 0)
+// the two byte gauges (per shard, and the reported stat) and the reported item count
+//@ pred gauge(mc *CacheMemoryController) int64
+//@   is c16i64(mc.bytesInUseForShard)
+//@ pred bstat(mc *CacheMemoryController) int64
+//@   is mc.globalUsageStat.val
+//@ pred istat(rc *LRURevisionCache) int64
+//@   is rc.cacheNumItems.val
+
+//@ func revCacheValue.getItemBytes
+//@   requires value != nil
+//@   ensures[loads] result == ibytes(value)
+
+//@ func CacheMemoryController.incrementBytesCount
+//@   requires mc != nil && mc.globalUsageStat != nil
+//@   modifies mc.bytesInUseForShard, mc.globalUsageStat.val
+//@   ensures[gauge] gauge(mc) == old(gauge(mc)) + n && bstat(mc) == old(bstat(mc)) + n
+
+//@ func CacheMemoryController.decrementBytesCount
+//@   requires mc != nil && mc.globalUsageStat != nil
+//@   modifies mc.bytesInUseForShard, mc.globalUsageStat.val
+//@   ensures[gauge] gauge(mc) == old(gauge(mc)) - n && bstat(mc) == old(bstat(mc)) - n
+
+// ======================= the cache value =======================
+
+// `store` writes the value's fields only when no body has been stored or loaded yet (bodyBytes == nil): a value
+// that already holds a revision keeps serving exactly that revision, and its accounted size stays what it was.
+//@ func revCacheValue.store
+//@   requires value != nil
+//@   modifies value.revID, value.id, value.bodyBytes, value.history, value.channels, value.expiry, value.attachments, value.deleted, value.err, value.itemBytes, value.hlvHistory
+//@   ensures[keeps-loaded]  old(value.bodyBytes) != nil ==> value.bodyBytes == old(value.bodyBytes) && value.history == old(value.history) && value.channels == old(value.channels) && value.deleted == old(value.deleted) && value.attachments == old(value.attachments) && value.revID == old(value.revID) && value.id == old(value.id) && value.expiry == old(value.expiry) && value.err == old(value.err) && value.hlvHistory == old(value.hlvHistory)
+//@   ensures[keeps-size]    old(value.bodyBytes) != nil ==> ibytes(value) == old(ibytes(value))
+//@   ensures[stores]        old(value.bodyBytes) == nil ==> value.bodyBytes == docRev.BodyBytes && value.history == docRev.History && value.channels == docRev.Channels && value.deleted == docRev.Deleted && value.revID == docRev.RevID && value.id == docRev.DocID && value.expiry == docRev.Expiry && isNilErr(value.err) && value.hlvHistory == docRev.HlvHistory
+//@   ensures[stores-att]    old(value.bodyBytes) == nil ==> (docRev.Attachments == nil ==> value.attachments == nil) && c16copyOf(value.attachments, docRev.Attachments)
+//@   ensures[stores-size]   old(value.bodyBytes) == nil ==> ibytes(value) == docRev.MemoryBytes
+//@   ensures[state]         mstate(value) == old(mstate(value)) && value.itemKey == old(value.itemKey)
+
+// ---- the attachments copy (AttachmentsMeta.ShallowCopy -> copyMap: nested maps are copied recursively) ----
+// A copy has the keys of the original; every entry is the same value or (a nested map, which is copied) a value
+// of the same dynamic type. No map that existed before the call is written.
+// (Engine limitation: typeTag(map[string]any) does not parse, so "is a map" cannot be named; "same dynamic type" is used.)
+//@ pred c16mapsKept() bool
+//@   is forall m map[string]any, k string :: {k in m} old(allocated(m)) ==> ((k in m) <==> old(k in m)) && m[k] == old(m[k])
+//@ pred c16copyOf(c map[string]any, m map[string]any) bool
+//@   is (forall k string :: {k in c} (k in c) <==> (k in m)) &&
+//@      (forall k string :: {k in m} (k in m) ==> c[k] == m[k] || dynType(c[k]) == dynType(m[k]))
+
+//@ func copyMap
+//@   ensures[fresh]  result != nil && !old(allocated(now(result)))
+//@   ensures[frame]  c16mapsKept()
+//@   ensures[copy]   c16copyOf(result, sourceMap)
+//@   loop 1 invariant[fresh]  copy != nil && !old(allocated(now(copy))) && copy != sourceMap
+//@   loop 1 invariant[frame]  c16mapsKept()
+//@   loop 1 invariant[keys]   forall k string :: {k in copy} (k in copy) <==> (k in #visited)
+//@   loop 1 invariant[seen]   forall k string :: {k in #visited} (k in #visited) ==> (k in sourceMap)
+//@   loop 1 invariant[vals]   forall k string :: {k in #visited} (k in #visited) ==> copy[k] == sourceMap[k] || dynType(copy[k]) == dynType(sourceMap[k])
+
+//@ func AttachmentsMeta.ShallowCopy
+//@   ensures[nil]    attachments == nil ==> result == nil
+//@   ensures[fresh]  attachments != nil ==> result != nil && !old(allocated(now(result)))
+//@   ensures[frame]  c16mapsKept()
+//@   ensures[copy]   c16copyOf(result, attachments)
+
+// What the cache serves for a value is what is stored in it: body, history, channels, deletion flag (and id, rev id,
+// expiry, removed flag, HLV history) are the stored fields themselves, the attachments are a copy of the stored
+// attachments, the error is the stored load error. Nothing is written.
+//@ func revCacheValue.asDocumentRevision
+//@   requires value != nil
+//@   ensures[serves] result0.BodyBytes == value.bodyBytes && result0.History == value.history && result0.Channels == value.channels && result0.Deleted == value.deleted && result0.Removed == value.removed
+//@   ensures[ids]    result0.DocID == value.id && result0.RevID == value.revID && result0.Expiry == value.expiry && result0.HlvHistory == value.hlvHistory && result0.Delta == delta
+//@   ensures[att]    (value.attachments == nil ==> result0.Attachments == nil) && c16copyOf(result0.Attachments, value.attachments)
+//@   ensures[err]    result1 == value.err
+//@   ensures[frame]  c16mapsKept()
+
+// ======================= the cache: map and LRU list =======================
+
+// the cache value held by a list element
+//@ pred c16val(e *list.Element) *revCacheValue
+//@   is unbox(e.Value, *revCacheValue)
+
+// object well-formedness (established by NewLRURevisionCache / newCacheMemoryController, never changed): the
+// parts exist, the list is this cache's own list, and the statistics counters are different objects.
+//@ pred c16wf(rc *LRURevisionCache) bool
+//@   is rc != nil && rc.cache != nil && rc.lruList != nil && c16owner(rc.lruList) == rc && rc.cacheNumItems != nil &&
+//@      rc.memoryController != nil && rc.memoryController.globalUsageStat != nil && rc.memoryController.globalUsageStat != rc.cacheNumItems &&
+//@      rc.cacheHits != rc.cacheNumItems && rc.cacheMisses != rc.cacheNumItems && rc.cacheHits != rc.memoryController.globalUsageStat && rc.cacheMisses != rc.memoryController.globalUsageStat
+
+// Structure invariant A(rc), at every point where rc.lock is released: the keys of the map and the elements of
+// the list correspond one-to-one (both directions are stated, with the inverse function "the itemKey of the value
+// an element holds"), every element holds a cache value, and the two sizes agree. (allocated(..): elements and
+// values reachable from the cache are existing objects, not addresses a later `new` could return; the verifier
+// knows this for values loaded by the code but not for terms of a quantified contract.)
+// A cached value holds no load error (a failed load is taken out of the cache by the Get that ran it), and one whose
+// bytes are accounted (memStateSized) holds a body: it is always served as a cache hit and never re-loaded, so its
+// size is not rewritten and it is never handed to removeValueForFailedLoad.
+//@ pred c16valOK(v *revCacheValue) bool
+//@   is isNilErr(v.err) && (mstate(v) == memStateSized ==> v.bodyBytes != nil)
+//@ pred c16map(rc *LRURevisionCache) bool
+//@   is forall k revCacheKey :: {k in rc.cache} (k in rc.cache) ==> rc.cache[k] != nil && (rc.cache[k] in rc.lruSet) && c16val(rc.cache[k]).itemKey == k
+// (c16listX(rc, x): the same, except that value x is excused from c16valOK -- the state inside Get between a failed load
+// and its clean-up)
+//@ pred c16listX(rc *LRURevisionCache, x *revCacheValue) bool
+//@   is forall e *list.Element :: {e in rc.lruSet} (e in rc.lruSet) ==> e != nil && allocated(e) && allocated(c16val(e)) && dynType(e.Value) == typeTag(*revCacheValue) && c16val(e) != nil && (c16val(e).itemKey in rc.cache) && rc.cache[c16val(e).itemKey] == e && ibytes(c16val(e)) >= 0 && (c16val(e) != x ==> c16valOK(c16val(e)))
+//@ pred c16list(rc *LRURevisionCache) bool
+//@   is c16listX(rc, nil)
+//@ pred c16struct(rc *LRURevisionCache) bool
+//@   is c16map(rc) && c16list(rc) && rc.lruLen >= 0 && len(rc.cache) == rc.lruLen
+// ... and the number of cached items does not exceed the configured capacity.
+//@ pred c16inv(rc *LRURevisionCache) bool
+//@   is c16struct(rc) && rc.lruLen <= int(rc.capacity)
+
+// Takes the tail element off the list (the map is updated by the caller).
+//@ func LRURevisionCache._findEvictionValue
+//@   requires c16wf(rc) && c16list(rc) && rc.lruLen >= 0
+//@   modifies rc.lruSet, rc.lruLen
+//@   ensures[empty]   old(rc.lruLen) == 0 ==> result == nil && rc.lruSet == old(rc.lruSet) && rc.lruLen == 0
+//@   ensures[taken]   old(rc.lruLen) > 0 ==> result != nil && rc.lruLen == old(rc.lruLen) - 1 && (result.itemKey in rc.cache) && old(rc.cache[result.itemKey] in rc.lruSet) && c16val(rc.cache[result.itemKey]) == result && rc.lruSet == minus(old(rc.lruSet), single(rc.cache[result.itemKey]))
+
+// "the map of rc is what it was, minus key k" / "is what it was"
+//@ pred c16cacheMinus(rc *LRURevisionCache, k revCacheKey) bool
+//@   is forall q revCacheKey :: {q in rc.cache} ((q in rc.cache) <==> old(q in rc.cache) && q != k) && ((q in rc.cache) ==> rc.cache[q] == old(rc.cache[q]))
+//@ pred c16cacheSame(rc *LRURevisionCache) bool
+//@   is forall q revCacheKey :: {q in rc.cache} ((q in rc.cache) <==> old(q in rc.cache)) && ((q in rc.cache) ==> rc.cache[q] == old(rc.cache[q]))
+// "no cache value changed its accounting state" / "..., except x"
+//@ pred c16statesKept() bool
+//@   is forall v *revCacheValue :: {mstate(v)} mstate(v) == old(mstate(v))
+//@ pred c16statesKeptExcept(x *revCacheValue) bool
+//@   is forall v *revCacheValue :: {mstate(v)} v != x ==> mstate(v) == old(mstate(v))
+
+// Eviction on item count. Entered with the structure invariant and at most one item over capacity (the caller has
+// just inserted one item into a cache that satisfied the invariant); leaves with the full invariant. Either
+// nothing happens, or exactly one element e leaves list and map, its value goes to memStateRemoved, and the bytes
+// handed back for decrement are exactly what that value contributed to the gauge (its size if it was Sized, else 0).
+//@ func LRURevisionCache._numberCapacityEviction
+//@   requires[wf]    c16wf(rc)
+//@   requires[map]   c16map(rc)
+//@   requires[list]  c16list(rc)
+//@   requires[size]  rc.lruLen >= 0 && len(rc.cache) == rc.lruLen && rc.lruLen <= int(rc.capacity) + 1
+//@   modifies rc.lruSet, rc.lruLen, elems(rc.cache), revCacheValue.memState
+//@   ensures[inv]    c16inv(rc)
+//@   ensures[count]  numItemsEvicted == old(rc.lruLen) - rc.lruLen && numItemsEvicted == old(len(rc.cache)) - len(rc.cache) && (numItemsEvicted == 0 || numItemsEvicted == 1)
+//@   ensures[when]   numItemsEvicted == 1 <==> old(rc.lruLen) > int(rc.capacity)
+//@   ensures[none]   numItemsEvicted == 0 ==> numBytesEvicted == 0 && rc.lruSet == old(rc.lruSet) && c16cacheSame(rc) && c16statesKept()
+//@   ensures[one]    numItemsEvicted == 1 ==> (exists e *list.Element :: {e in old(rc.lruSet)} old(e in rc.lruSet) && rc.lruSet == minus(old(rc.lruSet), single(e)) && c16cacheMinus(rc, c16val(e).itemKey) &&
+//@                      numBytesEvicted == old(acct(c16val(e))) && mstate(c16val(e)) == memStateRemoved && c16statesKeptExcept(c16val(e)))
+// (the loop contains calls of extern contracts whose `modifies` mentions a parameter; the engine then havocs the whole
+// heap at the loop head, so the frame of the loop is restated as an invariant)
+//@   loop 1 invariant[frame]  rc.capacity == old(rc.capacity) && rc.cache == old(rc.cache) && rc.lruList == old(rc.lruList) && rc.memoryController == old(rc.memoryController) && rc.cacheNumItems == old(rc.cacheNumItems) && rc.memoryController.globalUsageStat == old(rc.memoryController.globalUsageStat)
+//@   loop 1 invariant[frame2] (forall e *list.Element :: {e.Value} e.Value == old(e.Value)) && (forall v *revCacheValue :: {ibytes(v)} {mstate(v)} ibytes(v) == old(ibytes(v)) && v.itemKey == old(v.itemKey))
+//@   loop 1 invariant[wf]     c16wf(rc) && c16struct(rc)
+//@   loop 1 invariant[count]  numItemsEvicted == old(rc.lruLen) - rc.lruLen && numItemsEvicted == old(len(rc.cache)) - len(rc.cache) && (numItemsEvicted == 0 || numItemsEvicted == 1)
+//@   loop 1 invariant[none]   numItemsEvicted == 0 ==> numBytesEvicted == 0 && rc.lruSet == old(rc.lruSet) && c16cacheSame(rc) && c16statesKept()
+//@   loop 1 invariant[when]   numItemsEvicted == 1 ==> old(rc.lruLen) > int(rc.capacity)
+//@   loop 1 invariant[one]    numItemsEvicted == 1 ==> (exists e *list.Element :: {e in old(rc.lruSet)} old(e in rc.lruSet) && rc.lruSet == minus(old(rc.lruSet), single(e)) && c16cacheMinus(rc, c16val(e).itemKey) &&
+//@                      numBytesEvicted == old(acct(c16val(e))) && mstate(c16val(e)) == memStateRemoved && c16statesKeptExcept(c16val(e)))
+
+//@ func CreateRevisionCacheKey
+//@   pure
+
+//@ pred c16gaugesSame(rc *LRURevisionCache) bool
+//@   is gauge(rc.memoryController) == old(gauge(rc.memoryController)) && bstat(rc.memoryController) == old(bstat(rc.memoryController))
+
+// Look-up or insertion under the cache lock.
+//   inv      the structure invariant and the capacity bound hold again at return;
+//   items    the reported item count moves exactly as the number of keys in the map;
+//   hit/none when nothing is inserted, nothing changes (map, list, gauges, accounting state of every value);
+//   created  a new value starts in memStateLoading with nothing accounted (or has already been evicted again:
+//            memStateRemoved, still nothing accounted);
+//   bytes    on insertion at most one OTHER value w changes its accounting state: it goes to memStateRemoved, it was
+//            cached under its own key, and both byte gauges drop by exactly what w contributed (its size if it
+//            was memStateSized, nothing if it was still loading).
+//@ func LRURevisionCache.getValue
+//@   requires c16wf(rc) && c16inv(rc)
+//@   modifies rc.lruSet, rc.lruLen, elems(rc.cache), revCacheValue.memState, rc.cacheNumItems.val, rc.memoryController.bytesInUseForShard, rc.memoryController.globalUsageStat.val
+// (proof steps: the verifier does not carry "allocated" across the `new` by itself; the two map-* steps split the
+// map invariant after the insertion into the old keys and the new one)
+//@   before[alloc-step]   call ParseVersion forall e *list.Element :: {e in rc.lruSet} (e in rc.lruSet) ==> allocated(e) && allocated(c16val(e))
+//@   before[map-old-keys] call _numberCapacityEviction forall k revCacheKey :: {k in rc.cache} (k in rc.cache) && k != CreateRevisionCacheKey(docID, docVersionString, collectionID) ==> c16val(rc.cache[k]).itemKey == k
+//@   before[map-new-key] call _numberCapacityEviction c16val(rc.cache[CreateRevisionCacheKey(docID, docVersionString, collectionID)]).itemKey == CreateRevisionCacheKey(docID, docVersionString, collectionID)
+//@   ensures[inv]     c16inv(rc)
+//@   ensures[items]   istat(rc) - old(istat(rc)) == len(rc.cache) - old(len(rc.cache))
+//@   ensures[invalid] (docID == "" || docVersionString == "") ==> value == nil
+//@   ensures[hit]     docID != "" && docVersionString != "" && old(CreateRevisionCacheKey(docID, docVersionString, collectionID) in rc.cache) ==> value == c16val(old(rc.cache[CreateRevisionCacheKey(docID, docVersionString, collectionID)])) && value != nil
+//@   ensures[miss]    docID != "" && docVersionString != "" && !old(CreateRevisionCacheKey(docID, docVersionString, collectionID) in rc.cache) && !create ==> value == nil
+//@   ensures[same]    docID == "" || docVersionString == "" || old(CreateRevisionCacheKey(docID, docVersionString, collectionID) in rc.cache) || !create ==> c16cacheSame(rc) && rc.lruSet == old(rc.lruSet) && c16gaugesSame(rc) && c16statesKept() && istat(rc) == old(istat(rc))
+//@   ensures[created] docID != "" && docVersionString != "" && !old(CreateRevisionCacheKey(docID, docVersionString, collectionID) in rc.cache) && create ==> value != nil && !old(allocated(now(value))) && value.itemKey == CreateRevisionCacheKey(docID, docVersionString, collectionID) && value.bodyBytes == nil && isNilErr(value.err) && ibytes(value) == 0 && (mstate(value) == memStateLoading || mstate(value) == memStateRemoved)
+//@   ensures[bytes]   docID != "" && docVersionString != "" && !old(CreateRevisionCacheKey(docID, docVersionString, collectionID) in rc.cache) && create ==>
+//@                      (c16gaugesSame(rc) && c16statesKeptExcept(value)) ||
+//@                      (exists w *revCacheValue :: {mstate(w)} w != value && old(allocated(w)) && mstate(w) == memStateRemoved && old(w.itemKey in rc.cache) && old(c16val(rc.cache[w.itemKey])) == w && !(w.itemKey in rc.cache) &&
+//@                         gauge(rc.memoryController) == old(gauge(rc.memoryController)) - old(acct(w)) && bstat(rc.memoryController) == old(bstat(rc.memoryController)) - old(acct(w)) &&
+//@                         (forall v *revCacheValue :: {mstate(v)} v != w && v != value ==> mstate(v) == old(mstate(v))))
+
+// Peek changes nothing (only the LRU order, which is not modelled).
+//@ func LRURevisionCache.peekCacheForKey
+//@   requires c16wf(rc) && c16inv(rc)
+//@   ensures[hit]  (key in rc.cache) ==> value == c16val(rc.cache[key]) && value != nil && value.itemKey == key
+//@   ensures[miss] !(key in rc.cache) ==> value == nil
+
+// Remove: the key leaves the map and its element the list, the item count drops by one, the value goes to
+// memStateRemoved and both byte gauges drop by exactly what it contributed; nothing else changes.
+//@ func LRURevisionCache.Remove
+//@   requires c16wf(rc) && c16inv(rc)
+//@   modifies rc.lruSet, rc.lruLen, elems(rc.cache), revCacheValue.memState, rc.cacheNumItems.val, rc.memoryController.bytesInUseForShard, rc.memoryController.globalUsageStat.val
+//@   ensures[items]   istat(rc) - old(istat(rc)) == len(rc.cache) - old(len(rc.cache))
+//@   ensures[absent]  !old(CreateRevisionCacheKey(docID, versionString, collectionID) in rc.cache) ==> c16cacheSame(rc) && rc.lruSet == old(rc.lruSet) && c16gaugesSame(rc) && c16statesKept()
+//@   ensures[removed] old(CreateRevisionCacheKey(docID, versionString, collectionID) in rc.cache) ==> c16cacheMinus(rc, CreateRevisionCacheKey(docID, versionString, collectionID)) && len(rc.cache) == old(len(rc.cache)) - 1 &&
+//@                      rc.lruSet == minus(old(rc.lruSet), single(old(rc.cache[CreateRevisionCacheKey(docID, versionString, collectionID)])))
+//@   ensures[bytes]   old(CreateRevisionCacheKey(docID, versionString, collectionID) in rc.cache) ==>
+//@                      mstate(old(c16val(rc.cache[CreateRevisionCacheKey(docID, versionString, collectionID)]))) == memStateRemoved && c16statesKeptExcept(old(c16val(rc.cache[CreateRevisionCacheKey(docID, versionString, collectionID)]))) &&
+//@                      gauge(rc.memoryController) == old(gauge(rc.memoryController)) - old(acct(c16val(rc.cache[CreateRevisionCacheKey(docID, versionString, collectionID)]))) &&
+//@                      bstat(rc.memoryController) == old(bstat(rc.memoryController)) - old(acct(c16val(rc.cache[CreateRevisionCacheKey(docID, versionString, collectionID)])))
+//@   ensures[inv-map]  c16map(rc)
+//@   ensures[inv-list] c16list(rc)
+//@   ensures[inv]      c16inv(rc)
+
+// After a failed load: the value goes to memStateRemoved, leaves map and list if it is still the cached value of
+// its key, and the item count follows. No byte gauge is touched: the caller (Get) only calls this for a value
+// that is not memStateSized (precondition `unsized`), so nothing was accounted for it.
+//@ func LRURevisionCache.removeValueForFailedLoad
+//@   requires c16wf(rc) && value != nil && c16map(rc) && c16listX(rc, value) && rc.lruLen >= 0 && len(rc.cache) == rc.lruLen && rc.lruLen <= int(rc.capacity)
+//@   requires[unsized] mstate(value) != memStateSized
+//@   modifies rc.lruSet, rc.lruLen, elems(rc.cache), value.memState, rc.cacheNumItems.val
+//@   ensures[state]    mstate(value) == memStateRemoved && acct(value) == old(acct(value))
+//@   ensures[items]    istat(rc) - old(istat(rc)) == len(rc.cache) - old(len(rc.cache))
+//@   ensures[gone]     !((value.itemKey in rc.cache) && c16val(rc.cache[value.itemKey]) == value)
+//@   ensures[others]   forall q revCacheKey :: {q in rc.cache} q != value.itemKey ==> ((q in rc.cache) <==> old(q in rc.cache)) && rc.cache[q] == old(rc.cache[q])
+//@   ensures[inv-map]  c16map(rc)
+//@   ensures[inv-list] c16list(rc)
+//@   ensures[inv]      c16inv(rc)
+
+// Eviction on memory pressure (called by the orchestrator, which decrements the gauges by the returned amount):
+// one element leaves list and map, the item count drops by one, its value goes to memStateRemoved, and the
+// amount returned is exactly what the value contributed to the gauges.
+//@ func LRURevisionCache.evictLRUTail
+//@   requires c16wf(rc) && c16inv(rc)
+//@   modifies rc.lruSet, rc.lruLen, elems(rc.cache), revCacheValue.memState, rc.cacheNumItems.val
+//@   ensures[empty]    old(rc.lruLen) == 0 ==> result0 == 0 && !result1 && c16cacheSame(rc) && rc.lruSet == old(rc.lruSet) && c16statesKept() && istat(rc) == old(istat(rc))
+//@   ensures[evicted]  old(rc.lruLen) > 0 ==> result1 && value != nil && old(value.itemKey in rc.cache) && old(c16val(rc.cache[value.itemKey])) == value && c16cacheMinus(rc, value.itemKey) && len(rc.cache) == old(len(rc.cache)) - 1
+//@   ensures[bytes]    old(rc.lruLen) > 0 ==> result0 == old(acct(value)) && mstate(value) == memStateRemoved && c16statesKeptExcept(value)
+//@   ensures[items]    istat(rc) - old(istat(rc)) == len(rc.cache) - old(len(rc.cache))
+//@   ensures[inv-map]  c16map(rc)
+//@   ensures[inv-list] c16list(rc)
+//@   ensures[inv]      c16inv(rc)
+
+// ======================= sizes and loads =======================
+
+// The computed size is never negative (the eviction paths only decrement a gauge for a positive amount).
+//@ func DocumentRevision.CalculateBytes
+//@   requires rev != nil
+//@   modifies rev.MemoryBytes
+//@   ensures[nonneg] rev.MemoryBytes >= 0
+//@   loop 1 invariant[nonneg] totalBytes >= 0
+
+// TRUSTED (storage): the four loaders read the document / old-revision body from the bucket (GetDocument may run an
+// on-demand import, i.e. write to the BUCKET) and build fresh Go values from it. What is assumed: they write no
+// memory of the revision cache (no LRURevisionCache, revCacheValue, list or counter; they are not handed the
+// value), and do not write maps that existed before the call. Nothing is assumed about WHAT they return:
+// "equal to a fresh load" is true by construction (the value stores exactly what the loader returned, see `load`)
+// and is otherwise out of reach (the loaders ARE the fresh load).
+//   ASSUMPTION L (labelled `L` below): a load that reports no error returns a body (bodyBytes != nil). Read off
+//   the code: getRevision / getCurrentVersion return an error when no body is found; getCurrentVersion has one
+//   path `if err != nil || bodyBytes == nil { return nil, ..., err }` that can return (nil, nil) if an old-revision
+//   backup document holds an empty body; see the report for what happens to the accounting if L fails.
+//@ func revCacheLoader
+//@   trusted
+//@   ensures[frame] c16mapsKept()
+//@   ensures[L]     isNilErr(err) ==> bodyBytes != nil
+//@ func revCacheLoaderForCv
+//@   trusted
+//@   ensures[frame] c16mapsKept()
+//@   ensures[L]     isNilErr(err) ==> bodyBytes != nil
+//@ func revCacheLoaderForDocument
+//@   trusted
+//@   ensures[frame] c16mapsKept()
+//@   ensures[L]     isNilErr(err) ==> bodyBytes != nil
+//@ func revCacheLoaderForDocumentCV
+//@   trusted
+//@   ensures[frame] c16mapsKept()
+//@   ensures[L]     isNilErr(err) ==> bodyBytes != nil
+
+// TRUSTED (thin, no effect): formats the HLV as a string; reads only.
+//@ func HybridLogicalVector.ToHistoryForHLV
+//@   trusted
+//@   inert
+
+// "the stored revision of v is what it was"
+//@ pred c16contentKept(v *revCacheValue) bool
+//@   is v.bodyBytes == old(v.bodyBytes) && v.history == old(v.history) && v.channels == old(v.channels) && v.deleted == old(v.deleted) && v.removed == old(v.removed) && v.attachments == old(v.attachments) &&
+//@      v.err == old(v.err) && v.revID == old(v.revID) && v.id == old(v.id) && v.expiry == old(v.expiry) && v.hlvHistory == old(v.hlvHistory) && ibytes(v) == old(ibytes(v))
+
+// Load-through. A value that already holds a body or a load error is served as it is (cache hit: nothing is
+// written, in particular not its size). Otherwise the loader runs once, the value stores exactly what the loader
+// returned, and its size is set iff the load succeeded. Either way what is returned is what the value now holds.
+//@ func revCacheValue.load
+//@   requires value != nil
+//@   modifies value.bodyBytes, value.history, value.channels, value.removed, value.attachments, value.deleted, value.expiry, value.revID, value.cv, value.hlvHistory, value.err, value.itemBytes
+//@   ensures[hit]        cacheHit <==> old(value.bodyBytes != nil || !isNilErr(value.err))
+//@   ensures[hit-keeps]  cacheHit ==> c16contentKept(value)
+//@   ensures[serves]     docRev.BodyBytes == value.bodyBytes && docRev.History == value.history && docRev.Channels == value.channels && docRev.Deleted == value.deleted && docRev.Removed == value.removed && err == value.err
+//@   ensures[serves-att] (value.attachments == nil ==> docRev.Attachments == nil) && c16copyOf(docRev.Attachments, value.attachments)
+//@   ensures[as-loaded-rev] called(revCacheLoader, 1) ==> value.bodyBytes == callres(revCacheLoader, 1, 0) && value.history == callres(revCacheLoader, 1, 1) && value.channels == callres(revCacheLoader, 1, 2) && value.removed == callres(revCacheLoader, 1, 3) &&
+//@                          value.attachments == callres(revCacheLoader, 1, 4) && value.deleted == callres(revCacheLoader, 1, 5) && value.err == callres(revCacheLoader, 1, 8)
+//@   ensures[as-loaded-cv]  called(revCacheLoaderForCv, 1) ==> value.bodyBytes == callres(revCacheLoaderForCv, 1, 0) && value.history == callres(revCacheLoaderForCv, 1, 1) && value.channels == callres(revCacheLoaderForCv, 1, 2) && value.removed == callres(revCacheLoaderForCv, 1, 3) &&
+//@                          value.attachments == callres(revCacheLoaderForCv, 1, 4) && value.deleted == callres(revCacheLoaderForCv, 1, 5) && value.err == callres(revCacheLoaderForCv, 1, 9)
+//@   ensures[loads-once]    !cacheHit <==> (called(revCacheLoader, 1) || called(revCacheLoaderForCv, 1))
+//@   ensures[sized]      !cacheHit && isNilErr(err) ==> ibytes(value) == docRev.MemoryBytes && ibytes(value) >= 0 && value.bodyBytes != nil
+//@   ensures[failed]     !cacheHit && !isNilErr(err) ==> ibytes(value) == old(ibytes(value))
+//@   ensures[state]      mstate(value) == old(mstate(value)) && value.itemKey == old(value.itemKey)
+
+// Same for the variant that is handed the document already read from the bucket (GetActive).
+//@ func revCacheValue.loadForDoc
+//@   requires value != nil
+//@   modifies value.bodyBytes, value.history, value.channels, value.removed, value.attachments, value.deleted, value.expiry, value.revID, value.cv, value.hlvHistory, value.err, value.itemBytes
+//@   ensures[hit]        cacheHit <==> old(value.bodyBytes != nil || !isNilErr(value.err))
+//@   ensures[hit-keeps]  cacheHit ==> c16contentKept(value)
+//@   ensures[serves]     docRev.BodyBytes == value.bodyBytes && docRev.History == value.history && docRev.Channels == value.channels && docRev.Deleted == value.deleted && docRev.Removed == value.removed && err == value.err
+//@   ensures[serves-att] (value.attachments == nil ==> docRev.Attachments == nil) && c16copyOf(docRev.Attachments, value.attachments)
+//@   ensures[as-loaded-rev] called(revCacheLoaderForDocument, 1) ==> value.bodyBytes == callres(revCacheLoaderForDocument, 1, 0) && value.history == callres(revCacheLoaderForDocument, 1, 1) && value.channels == callres(revCacheLoaderForDocument, 1, 2) && value.removed == callres(revCacheLoaderForDocument, 1, 3) &&
+//@                          value.attachments == callres(revCacheLoaderForDocument, 1, 4) && value.deleted == callres(revCacheLoaderForDocument, 1, 5) && value.err == callres(revCacheLoaderForDocument, 1, 8)
+//@   ensures[as-loaded-cv]  called(revCacheLoaderForDocumentCV, 1) ==> value.bodyBytes == callres(revCacheLoaderForDocumentCV, 1, 0) && value.history == callres(revCacheLoaderForDocumentCV, 1, 1) && value.channels == callres(revCacheLoaderForDocumentCV, 1, 2) && value.removed == callres(revCacheLoaderForDocumentCV, 1, 3) &&
+//@                          value.attachments == callres(revCacheLoaderForDocumentCV, 1, 4) && value.deleted == callres(revCacheLoaderForDocumentCV, 1, 5) && value.err == callres(revCacheLoaderForDocumentCV, 1, 9)
+//@   ensures[loads-once]    !cacheHit <==> (called(revCacheLoaderForDocument, 1) || called(revCacheLoaderForDocumentCV, 1))
+//@   ensures[sized]      !cacheHit && isNilErr(err) ==> ibytes(value) == docRev.MemoryBytes && ibytes(value) >= 0 && value.bodyBytes != nil
+//@   ensures[failed]     !cacheHit && !isNilErr(err) ==> ibytes(value) == old(ibytes(value))
+//@   ensures[state]      mstate(value) == old(mstate(value)) && value.itemKey == old(value.itemKey)
+
+// ======================= the per-call accounting clauses =======================
+
+// what v contributed to the gauges before the call (nothing if it did not exist yet)
+//@ pred c16oacct(v *revCacheValue) int64
+//@   is ite(old(allocated(v)), old(acct(v)), 0)
+// "no value that existed before the call, other than a and b, changed its contribution"
+//@ pred c16acctKeptExcept(a *revCacheValue, b *revCacheValue) bool
+//@   is forall v *revCacheValue :: {mstate(v)} old(allocated(v)) && v != a && v != b ==> acct(v) == old(acct(v))
+// Conservation, one touched value / two touched values: both byte gauges (the shard's and the reported one) move by
+// exactly the sum of the changes of accounted(v) over the values the call touched.
+//@ pred c16conserved1(rc *LRURevisionCache, a *revCacheValue) bool
+//@   is bstat(rc.memoryController) - old(bstat(rc.memoryController)) == acct(a) - c16oacct(a) && gauge(rc.memoryController) - old(gauge(rc.memoryController)) == acct(a) - c16oacct(a) && c16acctKeptExcept(a, a)
+// (the second value w is one that was cached under its own key when the call started)
+//@ pred c16wasCached(rc *LRURevisionCache, w *revCacheValue) bool
+//@   is w != nil && old(w.itemKey in rc.cache) && old(c16val(rc.cache[w.itemKey])) == w
+//@ pred c16conserved2(rc *LRURevisionCache, a *revCacheValue, w *revCacheValue) bool
+//@   is w != a && c16wasCached(rc, w) && bstat(rc.memoryController) - old(bstat(rc.memoryController)) == (acct(a) - c16oacct(a)) + (acct(w) - old(acct(w))) &&
+//@      gauge(rc.memoryController) - old(gauge(rc.memoryController)) == (acct(a) - c16oacct(a)) + (acct(w) - old(acct(w))) && c16acctKeptExcept(a, w)
+// State machine of the accounting state: Loading -> Sized, Loading -> Removed, Sized -> Removed, nothing else;
+// and the size of a value is not rewritten while it is accounted.
+//@ pred c16transitions() bool
+//@   is forall v *revCacheValue :: {mstate(v)} old(allocated(v)) ==> mstate(v) == old(mstate(v)) || (old(mstate(v)) == memStateLoading && mstate(v) == memStateSized) || (old(mstate(v)) != memStateRemoved && mstate(v) == memStateRemoved)
+//@ pred c16sizeStable() bool
+//@   is forall v *revCacheValue :: {ibytes(v)} old(allocated(v)) && old(mstate(v)) == memStateSized ==> ibytes(v) == old(ibytes(v))
+
+//@ func LRURevisionCache.statsRecorderFunc
+//@   requires rc != nil
+//@   modifies rc.cacheHits.val, rc.cacheMisses.val
+
+// Get (sequential reading: getValue, load, accounting, clean-up of a failed load run without interference).
+//   serves   what is returned is what the cached value holds (which is what the loader returned, see `load`);
+//   inv      structure invariant and capacity bound at return;
+//   items    reported item count moves as the number of keys;
+//   bytes    conservation over the (at most two) values touched: the value looked up / loaded, and at most one
+//            value evicted to make room for it;
+//   machine  legal transitions only, and no accounted value has its size rewritten;
+//   failed   a failed load leaves nothing cached under the key for this value and nothing accounted for it.
+//@ func LRURevisionCache.Get
+//@   requires c16wf(rc) && c16inv(rc)
+//@   modifies rc.lruSet, rc.lruLen, elems(rc.cache), revCacheValue.memState, rc.cacheNumItems.val, rc.memoryController.bytesInUseForShard, rc.memoryController.globalUsageStat.val, rc.cacheHits.val, rc.cacheMisses.val,
+//@            revCacheValue.bodyBytes, revCacheValue.history, revCacheValue.channels, revCacheValue.removed, revCacheValue.attachments, revCacheValue.deleted, revCacheValue.expiry, revCacheValue.revID, revCacheValue.cv, revCacheValue.hlvHistory, revCacheValue.err, revCacheValue.itemBytes
+//@   ensures[invalid]  (docID == "" || versionString == "") ==> value == nil && isNilErr(result2) && !result1 && c16gaugesSame(rc) && c16statesKept() && istat(rc) == old(istat(rc))
+//@   ensures[serves]   value != nil ==> result0.BodyBytes == value.bodyBytes && result0.History == value.history && result0.Channels == value.channels && result0.Deleted == value.deleted && result0.Removed == value.removed && result2 == value.err &&
+//@                        (value.attachments == nil ==> result0.Attachments == nil) && c16copyOf(result0.Attachments, value.attachments)
+//@   ensures[hit-kept] value != nil && old(allocated(value)) && old(value.bodyBytes != nil || !isNilErr(value.err)) ==> c16contentKept(value)
+//@   ensures[items]    istat(rc) - old(istat(rc)) == len(rc.cache) - old(len(rc.cache))
+//@   ensures[bytes]    value != nil ==> c16conserved1(rc, value) || (exists w *revCacheValue :: {mstate(w)} {old(mstate(w))} c16conserved2(rc, value, w))
+//@   ensures[machine]  c16transitions() && c16sizeStable()
+//@   ensures[failed]   value != nil && !isNilErr(result2) ==> acct(value) == 0 && mstate(value) == memStateRemoved && !((value.itemKey in rc.cache) && c16val(rc.cache[value.itemKey]) == value)
+//@   ensures[event]    result1 ==> value != nil && isNilErr(result2) && mstate(value) == memStateSized && acct(value) == ibytes(value) && c16oacct(value) == 0
+//@   ensures[inv-map]  c16map(rc)
+//@   ensures[inv-list] c16list(rc)
+//@   ensures[inv]      c16inv(rc)
+
+// Upsert under the lock: a new value (memStateLoading, nothing accounted) replaces whatever was cached under the key.
+// A replaced value goes to memStateRemoved and the gauges drop by what it contributed; if instead the insertion
+// pushes the cache over capacity one other value is evicted the same way. The item count is left short by exactly
+// the number of evicted items, which is handed back (result0) for the caller to subtract.
+//@ func LRURevisionCache.upsertDocToCache
+//@   requires c16wf(rc) && c16inv(rc)
+//@   modifies rc.lruSet, rc.lruLen, elems(rc.cache), revCacheValue.memState, rc.cacheNumItems.val, rc.memoryController.bytesInUseForShard, rc.memoryController.globalUsageStat.val
+//@   before[alloc-step]   call PushFront forall e *list.Element :: {e in rc.lruSet} (e in rc.lruSet) ==> allocated(e) && allocated(c16val(e))
+//@   before[map-old-keys] call _numberCapacityEviction forall k revCacheKey :: {k in rc.cache} (k in rc.cache) && k != cvKey ==> c16val(rc.cache[k]).itemKey == k
+//@   before[map-new-key]  call _numberCapacityEviction c16val(rc.cache[cvKey]).itemKey == cvKey
+//@   ensures[value]    result1 != nil && !old(allocated(now(result1))) && result1.itemKey == cvKey && result1.bodyBytes == nil && isNilErr(result1.err) && ibytes(result1) == 0 && (mstate(result1) == memStateLoading || mstate(result1) == memStateRemoved)
+//@   ensures[items]    result0 >= 0 && istat(rc) - old(istat(rc)) - result0 == len(rc.cache) - old(len(rc.cache))
+//@   ensures[replaced] old(cvKey in rc.cache) ==> mstate(old(c16val(rc.cache[cvKey]))) == memStateRemoved && !((cvKey in rc.cache) && c16val(rc.cache[cvKey]) == old(c16val(rc.cache[cvKey])))
+//@   ensures[bytes]    c16conserved1(rc, result1) || (exists w *revCacheValue :: {mstate(w)} {old(mstate(w))} c16conserved2(rc, result1, w))
+//@   ensures[machine]  c16transitions() && c16sizeStable()
+//@   ensures[inv-map]  c16map(rc)
+//@   ensures[inv-list] c16list(rc)
+//@   ensures[inv]      c16inv(rc)
+
+//@ func DocumentRevision.Validate
+//@   ensures[valid] isNilErr(result) ==> rev != nil && rev.DocID != "" && rev.RevID != "" && rev.CV != nil && len(rev.History) != 0 && len(rev.BodyBytes) != 0
+
+// "nothing of the cache changed"
+//@ pred c16untouched(rc *LRURevisionCache) bool
+//@   is c16cacheSame(rc) && rc.lruSet == old(rc.lruSet) && c16gaugesSame(rc) && c16statesKept() && istat(rc) == old(istat(rc))
+
+// Upsert: an invalid revision changes nothing; a valid one is cached in a NEW value that holds exactly the given
+// body, history, channels, deletion flag (and a copy of the attachments), is memStateSized with its computed size
+// accounted (unless it was evicted again at once), replacing and un-accounting whatever was cached under the key.
+//@ func LRURevisionCache.Upsert
+//@   requires c16wf(rc) && c16inv(rc)
+//@   modifies rc.lruSet, rc.lruLen, elems(rc.cache), revCacheValue.memState, rc.cacheNumItems.val, rc.memoryController.bytesInUseForShard, rc.memoryController.globalUsageStat.val,
+//@            revCacheValue.bodyBytes, revCacheValue.history, revCacheValue.channels, revCacheValue.attachments, revCacheValue.deleted, revCacheValue.expiry, revCacheValue.revID, revCacheValue.id, revCacheValue.hlvHistory, revCacheValue.err, revCacheValue.itemBytes
+//@   before[alloc-step] call Validate forall e *list.Element :: {e in rc.lruSet} (e in rc.lruSet) ==> allocated(e) && allocated(c16val(e))
+//@   before[alloc-step2] call Validate forall v *revCacheValue :: {mstate(v)} old(allocated(v)) ==> allocated(v)
+//@   after[bytes-mid] call upsertDocToCache c16conserved1(rc, $r1) || (exists w *revCacheValue :: {mstate(w)} {old(mstate(w))} c16conserved2(rc, $r1, w))
+//@   ensures[rejected] !isNilErr(result) ==> c16untouched(rc)
+//@   ensures[stored]   isNilErr(result) ==> called(upsertDocToCache, 1) && callres(upsertDocToCache, 1, 1) != nil && !old(allocated(now(callres(upsertDocToCache, 1, 1)))) && callres(upsertDocToCache, 1, 1).bodyBytes == docRev.BodyBytes && callres(upsertDocToCache, 1, 1).history == docRev.History && callres(upsertDocToCache, 1, 1).channels == docRev.Channels && callres(upsertDocToCache, 1, 1).deleted == docRev.Deleted &&
+//@                        callres(upsertDocToCache, 1, 1).revID == docRev.RevID && callres(upsertDocToCache, 1, 1).id == docRev.DocID && isNilErr(callres(upsertDocToCache, 1, 1).err) && c16copyOf(callres(upsertDocToCache, 1, 1).attachments, docRev.Attachments) && ibytes(callres(upsertDocToCache, 1, 1)) >= 0
+//@   ensures[state]    isNilErr(result) ==> (mstate(callres(upsertDocToCache, 1, 1)) == memStateSized && acct(callres(upsertDocToCache, 1, 1)) == ibytes(callres(upsertDocToCache, 1, 1))) || (mstate(callres(upsertDocToCache, 1, 1)) == memStateRemoved && acct(callres(upsertDocToCache, 1, 1)) == 0)
+//@   ensures[items]    istat(rc) - old(istat(rc)) == len(rc.cache) - old(len(rc.cache))
+//@   ensures[machine-t] c16transitions()
+//@   ensures[machine-s] c16sizeStable()
+//@   ensures[bytes]    isNilErr(result) ==> c16conserved1(rc, callres(upsertDocToCache, 1, 1)) || (exists w *revCacheValue :: {mstate(w)} {old(mstate(w))} c16conserved2(rc, callres(upsertDocToCache, 1, 1), w))
+//@   ensures[inv-map]  c16map(rc)
+//@   ensures[inv-list] c16list(rc)
+//@   ensures[inv]      c16inv(rc)
+
+//@ func Version.IsEmpty
+//@   pure
+// The CV string of a non-empty version is not "" (it contains "@"); of an empty version it is "".
+//@ func Version.String
+//@   ensures[empty]    v.IsEmpty() ==> result == ""
+//@   ensures[nonempty] !v.IsEmpty() ==> result != ""
+
+// Put: an invalid revision changes nothing; a valid one ends up cached under its CV key. If a value is already
+// cached under that key and holds a body, Put must not disturb it (it keeps serving what it holds, `kept`), and in
+// particular must not rewrite the size it is accounted with (`machine-s`, and `bytes`: conservation over the value
+// and at most one evicted value).
+// Precondition `cv`: Validate accepts any non-nil CV, but for an EMPTY version (&Version{}) CV.String() is "", getValue
+// returns nil for an empty version string and Put dereferences the nil value (panic). Callers must not pass one.
+//@ func LRURevisionCache.Put
+//@   requires c16wf(rc) && c16inv(rc)
+//@   requires[cv] docRev.CV != nil ==> !docRev.CV.IsEmpty()
+//@   modifies rc.lruSet, rc.lruLen, elems(rc.cache), revCacheValue.memState, rc.cacheNumItems.val, rc.memoryController.bytesInUseForShard, rc.memoryController.globalUsageStat.val,
+//@            revCacheValue.bodyBytes, revCacheValue.history, revCacheValue.channels, revCacheValue.attachments, revCacheValue.deleted, revCacheValue.expiry, revCacheValue.revID, revCacheValue.id, revCacheValue.hlvHistory, revCacheValue.err, revCacheValue.itemBytes
+//@   before[alloc-step]  call Validate forall e *list.Element :: {e in rc.lruSet} (e in rc.lruSet) ==> allocated(e) && allocated(c16val(e))
+//@   before[alloc-step2] call Validate forall v *revCacheValue :: {mstate(v)} old(allocated(v)) ==> allocated(v)
+//@   after[bytes-mid]    call getValue $r0 != nil && (c16conserved1(rc, $r0) || (exists w *revCacheValue :: {mstate(w)} {old(mstate(w))} c16conserved2(rc, $r0, w)))
+//@   ensures[rejected]  !isNilErr(result) ==> c16untouched(rc)
+//@   ensures[cached]    isNilErr(result) ==> called(getValue, 1) && callres(getValue, 1, 0) != nil && callres(getValue, 1, 0).bodyBytes != nil
+//@   ensures[stored]    isNilErr(result) && !old(allocated(now(callres(getValue, 1, 0)))) ==> callres(getValue, 1, 0).bodyBytes == docRev.BodyBytes && callres(getValue, 1, 0).history == docRev.History && callres(getValue, 1, 0).channels == docRev.Channels &&
+//@                         callres(getValue, 1, 0).deleted == docRev.Deleted && isNilErr(callres(getValue, 1, 0).err) && c16copyOf(callres(getValue, 1, 0).attachments, docRev.Attachments)
+//@   ensures[kept]      isNilErr(result) && old(allocated(now(callres(getValue, 1, 0)))) && old(now(callres(getValue, 1, 0)).bodyBytes != nil) ==> callres(getValue, 1, 0).bodyBytes == old(now(callres(getValue, 1, 0)).bodyBytes) &&
+//@                         callres(getValue, 1, 0).history == old(now(callres(getValue, 1, 0)).history) && callres(getValue, 1, 0).channels == old(now(callres(getValue, 1, 0)).channels) && callres(getValue, 1, 0).deleted == old(now(callres(getValue, 1, 0)).deleted) &&
+//@                         callres(getValue, 1, 0).attachments == old(now(callres(getValue, 1, 0)).attachments) && callres(getValue, 1, 0).err == old(now(callres(getValue, 1, 0)).err)
+//@   ensures[items]     istat(rc) - old(istat(rc)) == len(rc.cache) - old(len(rc.cache))
+//@   ensures[machine-t] c16transitions()
+//@   ensures[inv-map]   c16map(rc)
+//@   ensures[inv-list]  c16list(rc)
+//@   ensures[inv]       c16inv(rc)
+// `size-kept` is the pointed form of machine-s / bytes for the one value Put writes: EXPECTED TO FAIL on the current code
+// (candidate finding: Put stores docRev.MemoryBytes into itemBytes before the CAS, also when the value found under the
+// key is already memStateSized; nothing adjusts the gauges, and the later Remove/eviction subtracts the NEW size).
+// `bytes` and `machine-s` follow it in the list and are discharged only under it.
+//@   ensures[size-kept] isNilErr(result) && old(allocated(now(callres(getValue, 1, 0)))) && old(mstate(now(callres(getValue, 1, 0)))) == memStateSized ==> ibytes(callres(getValue, 1, 0)) == old(ibytes(now(callres(getValue, 1, 0))))
+//@   ensures[bytes]     isNilErr(result) ==> c16conserved1(rc, callres(getValue, 1, 0)) || (exists w *revCacheValue :: {mstate(w)} {old(mstate(w))} c16conserved2(rc, callres(getValue, 1, 0), w))
+//@   ensures[machine-s] c16sizeStable()
+
+// TRUSTED (storage): reads the document from the bucket (may run an on-demand import: writes the BUCKET); builds a
+// fresh *Document; writes no memory of the revision cache and no map that existed before.
+//   ASSUMPTION G: a document returned without error carries a current revision id (SyncData.RevTreeID != ""): every
+//   document Sync Gateway wrote or imported has one. Without it GetActive would hand "" to getValue, get nil back
+//   and dereference it.
+//@ extern func github.com/couchbase/sync_gateway/db.RevisionCacheBackingStore.GetDocument
+//@   ensures[frame] c16mapsKept()
+//@   ensures[G]     isNilErr(err) && doc != nil ==> doc.SyncData.GetRevTreeID() != ""
+
+// GetActive: same accounting as Get, for the document's current revision (read from the bucket first).
+//@ func LRURevisionCache.GetActive
+//@   requires c16wf(rc) && c16inv(rc) && docID != ""
+//@   modifies rc.lruSet, rc.lruLen, elems(rc.cache), revCacheValue.memState, rc.cacheNumItems.val, rc.memoryController.bytesInUseForShard, rc.memoryController.globalUsageStat.val, rc.cacheHits.val, rc.cacheMisses.val,
+//@            revCacheValue.bodyBytes, revCacheValue.history, revCacheValue.channels, revCacheValue.removed, revCacheValue.attachments, revCacheValue.deleted, revCacheValue.expiry, revCacheValue.revID, revCacheValue.cv, revCacheValue.hlvHistory, revCacheValue.err, revCacheValue.itemBytes
+//@   ensures[no-doc]   !called(getValue, 1) ==> c16untouched(rc) && !result1
+//@   ensures[serves]   called(getValue, 1) ==> callres(getValue, 1, 0) != nil && result0.BodyBytes == callres(getValue, 1, 0).bodyBytes && result0.History == callres(getValue, 1, 0).history && result0.Channels == callres(getValue, 1, 0).channels &&
+//@                        result0.Deleted == callres(getValue, 1, 0).deleted && result0.Removed == callres(getValue, 1, 0).removed && result2 == callres(getValue, 1, 0).err && c16copyOf(result0.Attachments, callres(getValue, 1, 0).attachments)
+//@   ensures[items]    istat(rc) - old(istat(rc)) == len(rc.cache) - old(len(rc.cache))
+//@   ensures[bytes]    called(getValue, 1) ==> c16conserved1(rc, callres(getValue, 1, 0)) || (exists w *revCacheValue :: {mstate(w)} {old(mstate(w))} c16conserved2(rc, callres(getValue, 1, 0), w))
+//@   ensures[machine]  c16transitions() && c16sizeStable()
+//@   ensures[failed]   called(getValue, 1) && !isNilErr(result2) ==> acct(callres(getValue, 1, 0)) == 0 && mstate(callres(getValue, 1, 0)) == memStateRemoved
+//@   ensures[inv-map]  c16map(rc)
+//@   ensures[inv-list] c16list(rc)
+//@   ensures[inv]      c16inv(rc)
+
+// Peek serves what the cached value holds and changes nothing.
+//@ func LRURevisionCache.Peek
+//@   requires c16wf(rc) && c16inv(rc)
+//@   ensures[found]  found ==> (CreateRevisionCacheKey(docID, versionString, collectionID) in rc.cache) && docRev.BodyBytes == c16val(rc.cache[CreateRevisionCacheKey(docID, versionString, collectionID)]).bodyBytes && docRev.BodyBytes != nil &&
+//@                      docRev.History == c16val(rc.cache[CreateRevisionCacheKey(docID, versionString, collectionID)]).history && docRev.Channels == c16val(rc.cache[CreateRevisionCacheKey(docID, versionString, collectionID)]).channels &&
+//@                      docRev.Deleted == c16val(rc.cache[CreateRevisionCacheKey(docID, versionString, collectionID)]).deleted
+//@   ensures[absent] !(CreateRevisionCacheKey(docID, versionString, collectionID) in rc.cache) ==> !found
